@@ -4,7 +4,7 @@ from . import kernels as K, C01
 PROPERTY = "C08"
 META = {
     "bounds": {"quick": "call history: the same obligations after a basis of the other order was built for the same L (L=3,4); 12 detrending functions (3 backends x auto/csd x detrend0/poly) + 6 window-only ones; L in 1..5 (L<=p included), K<=2, N=L+2; symbolic data, window, omega and trend coefficients (per channel, on absolute sample indices)",
-               "thorough": "L in 1..8, K<=3"},
+               "thorough": "L in 1..8, K<=3; call-history variant for L=3..6"},
     "outside": ["'up to rounding relative to the size of the added trend' (reals are exact here; the double-precision Q is cross-checked against the exact basis to 1e-12 concretely)"],
     "stubs": C01.META["stubs"],
     "assumptions": [],
@@ -94,7 +94,7 @@ def obligations(tier):
                         tag = "%s/%s_%s/o%d/L%d/s%s" % (backend, fam, mode, order, L, "-".join(map(str, st)))
                         p = dict(backend=backend, fam=fam, mode=mode, L=L, starts=st, order=order, N=N)
                         obs.append({"name": "inv/" + tag, "fn": "ob_invariance", "params": p, "weight": L * L * len(st)})
-                    if order in (1, 2) and L in (3, 4):
+                    if order in (1, 2) and L in ((3, 4) if tier == "quick" else (3, 4, 5, 6)):
                         # call history: a basis of the OTHER order was built for the same segment length before (process-wide state must not leak)
                         p = dict(backend=backend, fam=fam, mode=mode, L=L, starts=[1], order=order, N=N, prior_q=3 - order)
                         obs.append({"name": "inv-after-other-order/%s/%s_%s/o%d/L%d" % (backend, fam, mode, order, L), "fn": "ob_invariance", "params": p, "weight": L * L})
